@@ -48,6 +48,26 @@ Definition sort_n (p : Position) (ms : list Mv) (ttmove : option Mv) : list Mv :
       end), m)) ms)).
 
 (* ---- qsearch.rs *)
+Definition bump_nodes (st : Stats) : Stats :=
+  mkStats (st_depth st) (st_seldepth st) (N.succ (st_nodes st)) (st_best st).
+
+(* the move loop, with the recursive call abstracted *)
+Definition q_loop (rec : Position -> Stats -> Z -> Z -> Z -> option (Z * Stats)) (p : Position) (beta ply : Z)
+  : list Mv -> Stats -> Z -> Z -> option (Z * Stats) :=
+  fix loop (ms : list Mv) (st : Stats) (alpha best : Z) : option (Z * Stats) :=
+    match ms with
+    | [] => Some (best, st)
+    | m :: ms' =>
+      match rec (makemove false p m) (bump_nodes st) (- beta) (- alpha) (ply + 1) with
+      | None => None
+      | Some (v, st) =>
+        let score := - v in
+        let best := if best <? score then score else best in
+        let alpha := if alpha <? score then score else alpha in
+        if beta <=? alpha then Some (best, st) else loop ms' st alpha best
+      end
+    end.
+
 Fixpoint qsearch (fuel : nat) (p : Position) (st : Stats) (alpha beta ply : Z) : option (Z * Stats) :=
   match fuel with
   | O => None
@@ -56,20 +76,7 @@ Fixpoint qsearch (fuel : nat) (p : Position) (st : Stats) (alpha beta ply : Z) :
     let st := mkStats (st_depth st) (Z.max (st_seldepth st) ply) (st_nodes st) (st_best st) in
     if beta <=? stand_pat then Some (stand_pat, st) else
     let alpha := if alpha <? stand_pat then stand_pat else alpha in
-    (fix loop (ms : list Mv) (st : Stats) (alpha best : Z) : option (Z * Stats) :=
-       match ms with
-       | [] => Some (best, st)
-       | m :: ms' =>
-         let st := mkStats (st_depth st) (st_seldepth st) (N.succ (st_nodes st)) (st_best st) in
-         match qsearch f (makemove false p m) st (- beta) (- alpha) (ply + 1) with
-         | None => None
-         | Some (v, st) =>
-           let score := - v in
-           let best := if best <? score then score else best in
-           let alpha := if alpha <? score then score else alpha in
-           if beta <=? alpha then Some (best, st) else loop ms' st alpha best
-         end
-       end) (sort_q p (legal_captures p)) st alpha stand_pat
+    q_loop (qsearch f) p beta ply (sort_q p (legal_captures p)) st alpha stand_pat
   end.
 
 (* ---- negamax.rs *)
@@ -94,6 +101,67 @@ Definition pop_hist (s : SS) := mkSS (tl (ss_hist s)) (ss_tt s) (ss_stats s).
 
 Section Search.
 Variable stopf : Stats -> bool.
+
+Definition bump_nodes_ss (s : SS) : SS :=
+  with_stats s (set_nodes (ss_stats s) (N.succ (st_nodes (ss_stats s)))).
+
+(* score of one move: first move full window, later moves zero window (reduced) then re-search *)
+Definition search_move (rec : Position -> SS -> Z -> Z -> Z -> Z -> bool -> option (Z * SS))
+           (p : Position) (in_chk : bool) (beta ply depth : Z) (idx : Z) (m : Mv) (np : Position) (s : SS) (alpha : Z)
+  : option (Z * SS) :=
+  if idx =? 0 then
+    match rec np s (- beta) (- alpha) (ply + 1) (depth - 1) true with
+    | None => None
+    | Some (v, s') => Some (- v, s')
+    end
+  else
+    let is_capturing := is_capture p (m_from m) (m_to m) in
+    let is_qp := (m_promo m =? QUEEN)%N in
+    let reduction := if (idx <? 4) || (depth <? 3) || in_chk || is_capturing || is_qp then 0 else 1 in
+    match rec np s (- alpha - 1) (- alpha) (ply + 1) (depth - 1 - reduction) true with
+    | None => None
+    | Some (v, s') =>
+      let score := - v in
+      if (alpha <? score) && (score <? beta) then
+        match rec np s' (- beta) (- alpha) (ply + 1) (depth - 1) true with
+        | None => None
+        | Some (v2, s'') => Some (- v2, s'')
+        end
+      else Some (score, s')
+    end.
+
+Definition n_loop (rec : Position -> SS -> Z -> Z -> Z -> Z -> bool -> option (Z * SS))
+           (p : Position) (in_chk : bool) (beta ply depth : Z)
+  : list Mv -> Z -> SS -> Z -> Z -> option Mv -> option (Z * Z * option Mv * SS) :=
+  fix loop (ms : list Mv) (idx : Z) (s : SS) (alpha best : Z) (bm : option Mv) : option (Z * Z * option Mv * SS) :=
+    match ms with
+    | [] => Some (alpha, best, bm, s)
+    | m :: ms' =>
+      let np := makemove true p m in
+      let s := push_hist (bump_nodes_ss s) (hash np) in
+      match search_move rec p in_chk beta ply depth idx m np s alpha with
+      | None => None
+      | Some (score, s) =>
+        let s := pop_hist s in
+        let '(best, bm) := if best <? score then (score, Some m) else (best, bm) in
+        let alpha := if alpha <? score then score else alpha in
+        if beta <=? alpha then Some (alpha, best, bm, s)
+        else loop ms' (idx + 1) s alpha best bm
+      end
+    end.
+
+(* null-move pruning: Some (Some cut) = return cut; Some None = go on *)
+Definition null_move (rec : Position -> SS -> Z -> Z -> Z -> Z -> bool -> option (Z * SS))
+           (p : Position) (s : SS) (is_root can_null in_chk : bool) (beta ply depth : Z) : option (option Z * SS) :=
+  if negb is_root && can_null && (2 <? depth) && negb in_chk && negb (is_endgame p) then
+    let np := makenull p in
+    match rec np (push_hist s (hash np)) (- beta) (- beta + 1) (ply + 1) (depth - 1 - 2) false with
+    | None => None
+    | Some (v, s') =>
+      let s' := pop_hist s' in
+      if beta <=? - v then Some (Some (- v), s') else Some (None, s')
+    end
+  else Some (None, s).
 
 Fixpoint negamax (fuel : nat) (p : Position) (s : SS) (alpha beta ply depth : Z) (can_null : bool)
   : option (Z * SS) :=
@@ -133,63 +201,12 @@ Fixpoint negamax (fuel : nat) (p : Position) (s : SS) (alpha beta ply depth : Z)
       if negb is_pv && negb in_chk && (depth <? RFP_DEPTH) && (beta <=? static_eval - RFP_MARGIN * depth)
       then Some (static_eval - RFP_MARGIN * depth, s)
       else
-      match
-        (if negb is_root && can_null && (2 <? depth) && negb in_chk && negb (is_endgame p) then
-           let np := makenull p in
-           match negamax f np (push_hist s (hash np)) (- beta) (- beta + 1) (ply + 1) (depth - 1 - 2) false with
-           | None => None
-           | Some (v, s') =>
-             let s' := pop_hist s' in
-             if beta <=? - v then Some (Some (- v), s') else Some (None, s')
-           end
-         else Some (None, s))
-      with
+      match null_move (negamax f) p s is_root can_null in_chk beta ply depth with
       | None => None
       | Some (Some cut, s) => Some (cut, s)
       | Some (None, s) =>
         let moves := sort_n p (legal_moves p) ttmove in
-        match
-          (fix loop (ms : list Mv) (idx : Z) (s : SS) (alpha best : Z) (bm : option Mv)
-             : option (Z * Z * option Mv * SS) :=
-             match ms with
-             | [] => Some (alpha, best, bm, s)
-             | m :: ms' =>
-               let s := with_stats s (set_nodes (ss_stats s) (N.succ (st_nodes (ss_stats s)))) in
-               let np := makemove true p m in
-               let s := push_hist s (hash np) in
-               match
-                 (if idx =? 0 then
-                    match negamax f np s (- beta) (- alpha) (ply + 1) (depth - 1) true with
-                    | None => None
-                    | Some (v, s') => Some (- v, s')
-                    end
-                  else
-                    let is_capturing := is_capture p (m_from m) (m_to m) in
-                    let is_qp := (m_promo m =? QUEEN)%N in
-                    let reduction :=
-                      if (idx <? 4) || (depth <? 3) || in_chk || is_capturing || is_qp then 0 else 1 in
-                    match negamax f np s (- alpha - 1) (- alpha) (ply + 1) (depth - 1 - reduction) true with
-                    | None => None
-                    | Some (v, s') =>
-                      let score := - v in
-                      if (alpha <? score) && (score <? beta) then
-                        match negamax f np s' (- beta) (- alpha) (ply + 1) (depth - 1) true with
-                        | None => None
-                        | Some (v2, s'') => Some (- v2, s'')
-                        end
-                      else Some (score, s')
-                    end)
-               with
-               | None => None
-               | Some (score, s) =>
-                 let s := pop_hist s in
-                 let '(best, bm) := if best <? score then (score, Some m) else (best, bm) in
-                 let alpha := if alpha <? score then score else alpha in
-                 if beta <=? alpha then Some (alpha, best, bm, s)
-                 else loop ms' (idx + 1) s alpha best bm
-               end
-             end) moves 0 s alpha (- INF) None
-        with
+        match n_loop (negamax f) p in_chk beta ply depth moves 0 s alpha (- INF) None with
         | None => None
         | Some (alpha, best, None, s) =>
           Some ((if in_chk then - MATE_SCORE + ply else DRAW_SCORE), s)
